@@ -8,6 +8,9 @@ import (
 
 // ExploreRange traverses a list, and for each element in the range specified,
 // will apply a next selector to those reached nodes.
+// maxEnumeratedRange is the widest range whose indexes are listed as interests when the selector is compiled.
+const maxEnumeratedRange = 1 << 10
+
 type ExploreRange struct {
 	next     Selector // selector for element we're interested in
 	start    int64
@@ -78,6 +81,12 @@ func (pc ParseContext) ParseExploreRange(n datamodel.Node) (Selector, error) {
 	selector, err := pc.ParseSelector(next)
 	if err != nil {
 		return nil, err
+	}
+	if n := endValue - startValue; n < 0 || n > maxEnumeratedRange {
+		// Too wide to list every index up front (a selector is untrusted input: {^:0, $:1<<62} would
+		// otherwise allocate without bound). With no interest list the walk asks Explore about each
+		// child the node actually has, which selects the same children.
+		return ExploreRange{selector, startValue, endValue, nil}, nil
 	}
 	x := ExploreRange{
 		selector,
